@@ -43,10 +43,20 @@ def modules_digest(prefix="aioswitcher"):
     return khash(items)
 
 
+def _attrs(obj):
+    """Instance attributes, also for classes that use __slots__."""
+    d = dict(getattr(obj, "__dict__", {}) or {})
+    for klass in type(obj).__mro__:
+        for name in getattr(klass, "__slots__", ()) or ():
+            if isinstance(name, str) and name not in ("__dict__", "__weakref__") and hasattr(obj, name):
+                d.setdefault(name, getattr(obj, name))
+    return d
+
+
 def api_state(api):
     """Shallow, canonical view of an API object's own state."""
     out = []
-    for k, v in sorted(vars(api).items()):
+    for k, v in sorted(_attrs(api).items()):
         if k == "_reader":
             buf = getattr(v, "_buffer", b"")
             out.append((k, len(buf), bool(getattr(v, "_eof", False)), repr(getattr(v, "_exception", None))))
@@ -64,7 +74,7 @@ def bridge_state(bridge):
     ports = list(getattr(bridge, "_broadcast_ports", []))
     idx = {p: i for i, p in enumerate(ports)}
     out = []
-    for k, v in sorted(vars(bridge).items()):
+    for k, v in sorted(_attrs(bridge).items()):
         if k == "_transports":
             out.append((k, tuple(sorted((idx.get(p, p), (t is not None and not t.is_closing())) for p, t in v.items()))))
         elif k == "_broadcast_ports":
